@@ -4,6 +4,9 @@ import json, os
 ROOT = os.path.dirname(os.path.abspath(__file__))
 CLAIMED = {
  # id: (design_ref, level text, level_note, technique)
+ "C01": ("DESIGN 6/C01", "Lean 4 theorem tsFeat_exact (Tv/Thm/C01.lean): for every series, window >= 1, min_periods and position, each of the 8 incremental closures (sum, mean, ewm, wma, std, var, skew, kurt; null-aware and plain) under either driver shape emits exactly the statistic evaluated from scratch on the non-null elements of positions max(0,i-w+1)..=i (invariant: accumulator state = power sums / weighted sums of the current window, by induction over the add/remove history, no length bound). Exact-rational model; tied to the code by a differential run over all 18 entry points (+ ts_fdiff/ts_vfdiff, which are covered by correspondence only so far) x element/output types, exhaustive over small alphabets plus random series.",
+         "Lean kernel; axioms propext/Quot.sound/Classical.choice (Mathlib ring/field_simp over Rat); closures hand-transcribed from features.rs and validated by the correspondence run; IEEE rounding/drift not modelled (inputs are dyadic so power sums are exact in f64); fdiff coefficient theorem pending (correspondence only).",
+         "Lean 4 proof (generic refinement run_refines + algebraic invariants) + model/implementation correspondence check"),
  "C02": ("DESIGN 6/C02", "Lean 4 theorems (Tv/Thm/C02.lean) prove for every length, window >= 1 and both driver shapes that the callback sequence is i -> (start i, i) over 0..len, slots written = 0..len in order, slices = window max(0,i-w+1)..=i; the model is tied to the code by an exhaustive differential run of all driver entry points x 15 input backends x 3 output containers x returned/out-buffer paths with a recording stateful callback.",
          "Lean kernel; axioms propext/Quot.sound/Classical.choice; index-level model of view.rs loops hand-written and validated by the correspondence run; std/ndarray internals observed, not verified.",
          "Lean 4 proof (induction over index lists) + model/implementation correspondence check"),
